@@ -894,3 +894,76 @@ pub fn late_push_programs() -> Vec<Program> {
     }
     out
 }
+
+/// C06: attachments (by handle, through the local parent, at creation) to spans with parents in
+/// different traces, and to spans below them.
+pub fn multi_parent_attach_programs() -> Vec<Program> {
+    let mut out = Vec::new();
+    let mut idx = 0;
+    for n_roots in [2usize, 3] {
+        for route in 0..4 {
+            for roots_finish_first in [false, true] {
+                for on_descendant in [false, true] {
+                    idx += 1;
+                    let mut ops: Vec<Op> = Vec::new();
+                    let parents: Vec<u32> = (0..n_roots as u32).collect();
+                    for k in 0..n_roots {
+                        ops.push(root(k as u32, &format!("r{k}"), 0x600 + k as u128));
+                    }
+                    ops.push(Op::Child { slot: 10, name: "m".into(), parents: parents.clone(), single: false, props: p("ck", "cv") });
+                    let target = if on_descendant {
+                        ops.push(child(11, "d", 10));
+                        11
+                    } else {
+                        10
+                    };
+                    match route {
+                        0 => {
+                            ops.push(addprop(target, "hk", "hv"));
+                            ops.push(addevent(target, "he"));
+                        }
+                        1 => {
+                            ops.push(scope(target));
+                            ops.push(levent("le"));
+                            ops.push(lprop("lk", "lv"));
+                            ops.push(pop());
+                        }
+                        2 => {
+                            ops.push(scope(target));
+                            ops.push(lenter("l"));
+                            ops.push(levent("le"));
+                            ops.push(lprop("lk", "lv"));
+                            ops.push(pop());
+                            ops.push(pop());
+                            ops.push(addprop(target, "hk", "hv"));
+                        }
+                        _ => {
+                            ops.push(addevent(target, "he1"));
+                            ops.push(scope(target));
+                            ops.push(lprop("lk", "lv"));
+                            ops.push(pop());
+                            ops.push(addevent(target, "he2"));
+                        }
+                    }
+                    if on_descendant {
+                        ops.push(finish(11));
+                    }
+                    if roots_finish_first {
+                        // (the target then finishes after its roots: attachments become "may")
+                        for k in 0..n_roots {
+                            ops.push(finish(k as u32));
+                        }
+                        ops.push(finish(10));
+                    } else {
+                        ops.push(finish(10));
+                        for k in 0..n_roots {
+                            ops.push(finish(k as u32));
+                        }
+                    }
+                    out.push(Program::new(format!("C06-multi#{idx}")).worker("A", ops));
+                }
+            }
+        }
+    }
+    out
+}
